@@ -154,6 +154,11 @@ def run(ck):
                 "170141183460469231731687303715884105727", "170141183460469231731687303715884105728", "-170141183460469231731687303715884105728", "-170141183460469231731687303715884105729"]:
         forms += ["module M\nenum E : int64 { A = %s, B }\n" % lit, "module M\nunchecked enum E { A = %s }\n" % lit, "module M\nstruct S { tag(%s) a: int32? }\n" % lit,
                   "module M\ninterface I { op(tag(%s) a: int32?) -> tag(%s) string? }\n" % (lit, lit), "module M\nenum E { A(tag(%s) x: bool?) = %s }\n" % (lit, lit)]
+    # string literals: a backslash before every kind of character (one, two, three and four bytes long; quotes, another backslash, a line end, the end of the file), in every place that takes a string
+    for lit in ["\\\u00e9", "caf\\\u00e9", "\\\u20ac x", "\\\U0001F600", "a\\\U0001F600\\\u00e9\\\\", "\\\\\u00e9", "\\\"\u00e9", "\\n\\t\\0", "\u00e9\\", "\\\u3000", "x\\\u0301", "\\\x7f\\\x01"]:
+        forms += ['module M\n[deprecated("%s")] struct S {}\n' % lit, 'module M\n[foo::bar("%s", "%s")] struct S {}\n' % (lit, lit), '[[x::y("%s")]]\nmodule M\n' % lit,
+                  'module M\ninterface I { [deprecated("%s")] op([p::q("%s")] a: int32) }\n' % (lit, lit), 'module M\nstruct S { a: [t::u("%s")] Sequence<int32> }\n' % lit,
+                  'module M\n[deprecated("%s' % lit, 'module M\n[deprecated("%s\n")] struct S {}\n' % lit]
     # every inheritance graph and every containment graph over three definitions (a tail leading into a cycle, in every definition order)
     pairs3 = [(a, b) for a in range(3) for b in range(3)]
     for mask in range(512):
@@ -212,7 +217,7 @@ def run(ck):
     o3 = core.run_impl("diags", ["diags - " + hx(t) for t in forms], chunk=200, timeout=120)
     ck.stream("forms", description="all forms with LF and with CRLF line ends, diagnostics rendered with snippets; every prefix (also followed by a stray token) of four programs with doc comments, links and allow attributes on every kind of element; directives cut short at the end of their line; long non-ASCII tokens in unexpected places; every Unicode white-space character (and zero-width look-alikes, NUL) at every gap of every preprocessor directive and of ordinary source; every inheritance and containment graph over three definitions (containment also over compact structs used as dictionary keys); 24 doc comment bodies (links in overviews and in every tag, tags that do not fit, unterminated and empty links, comments that start right after the slashes with nothing, non-ASCII text or wide white space) on 20 kinds of element and places where none is allowed (parameters, return members, modules, types); every type form (primitive, optional, sequence, dictionary, result, struct/enum/interface/custom/alias names, global, unknown, module name, nested, attributed, malformed) in every type position "
               "(field, base, second base, underlying type, alias target, dictionary key/value, parameter, return tuple, enumerator field, tagged, compact, streamed, element, link); containment/alias/inheritance cycles; "
-              "every program of three aliases over {name, sequence, dictionary, result} x {A, B, C, int32} (4096, exhaustive); malformed and boundary integer literals in every literal position; mixed-width and CRLF doc comments; deep nesting (300), long lists (3000), long chains (300-400), unterminated constructs")
+              "every program of three aliases over {name, sequence, dictionary, result} x {A, B, C, int32} (4096, exhaustive); malformed and boundary integer literals in every literal position; string literals with a backslash before characters of every width; mixed-width and CRLF doc comments; deep nesting (300), long lists (3000), long chains (300-400), unterminated constructs")
     for t, oo in zip(forms, o3):
         ck.count("forms", t)
         if classify(oo) == "CRASH":
